@@ -96,7 +96,7 @@ func c20Lit(c *core.Ctx, r *core.Reporter) {
 			continue
 		}
 		nlit := 0
-		for _, fn := range core.WithAnon(root) {
+		for _, fn := range c.Region(root) {
 			lits := core.LiteralStores(fn, spec.typ)
 			var allocs []*ssa.Alloc
 			for al := range lits {
@@ -195,7 +195,7 @@ func c20Parent(c *core.Ctx, r *core.Reporter) {
 			continue
 		}
 		var sites []ssa.CallInstruction
-		for _, fn := range core.WithAnon(caller) {
+		for _, fn := range c.Region(caller) {
 			sites = append(sites, core.CallsTo(fn, callee, false)...)
 		}
 		if len(sites) != 1 {
